@@ -47,7 +47,7 @@ def configs(tier, seed):
     # attribution of records to input packets under cuts, duplicates and reordering (the C05 scenarios, other observation)
     from tlv.harness import c05
     for c5 in c05.configs(tier, seed):
-        if c5["isn"] != "any":
+        if c5["harness"] != "segmentation" or c5["isn"] != "any":
             continue
         cc = dict(c5)
         cc.update(harness="segmeta", name="segmeta-" + c5["name"])
